@@ -27,7 +27,7 @@ PID = 'C10'
 
 
 def tasks(tier):
-  out = []
+  out = [dict(kind='P0', d=0, r=r) for r in ((1, -1, 2) if tier == 'quick' else (1, -1, 2, -2, 3, -3, 5))]
   dmax = 6 if tier == 'quick' else 7
   for r in ((1, -1, 2) if tier == 'quick' else (1, -1, 2, -2, 3, -3)):
     for d in range(abs(r) + 3, dmax + 1):
@@ -77,7 +77,46 @@ def work(t):
                 violations=[dict(key=f"C10:{t['kind']}:crash", what=what, replay=path)], errors=[], configs=1)
 
 
+def p0_work(t):
+  """_should_compress and _precond_dim agree for EVERY dimension (symbolic d; forking proxy execution of both functions)"""
+  from precondition import distributed_shampoo as ds
+  from ..pysym import engine as PE
+  from ..pysym.engine import SymInt, term
+  r = t['r']
+  d = SymInt(z3.Int('d'))
+  E = PE.E
+  E.__init__()
+  E.base = [term(d) >= 1, term(d) <= 4096]
+  paths, bad = 0, None
+  for pc, (kind, res) in E.explore(lambda: (ds._should_compress(r, d), ds._precond_dim(r, d))):
+    paths += 1
+    if kind == 'exc':
+      bad = f'raises {res}'
+      continue
+    sc, pd = res
+    sc_t = term(sc) if not isinstance(sc, bool) else z3.BoolVal(sc)
+    rr, m = E.valid(pc, sc_t == (term(pd) != term(d)))
+    if rr != 'unsat':
+      dv = m.eval(term(d), model_completion=True).as_long() if m is not None else None
+      bad = f'd={dv}'
+  name = f'P0|r={r}|_should_compress(r, d) <=> _precond_dim(r, d) != d for every d in 1..4096 ({paths} paths)'
+  viol = []
+  status = 'unsat'
+  if bad:
+    what = concrete(dict(kind='P0', d=0, r=r))
+    if what:
+      path = write_replay(PID, dict(property=PID, replay=dict(kind='P0', d=0, r=r), observed=what))
+      viol.append(dict(key='C10:P0:compress-consistency', what=what, replay=path))
+      status = 'violation'
+    else:
+      status = 'spurious'
+  return dict(results=[dict(name=name, status=status, kind='core', queries=E.queries, solver_s=round(E.solver_s, 3), cases=paths)],
+              violations=viol, errors=[], configs=1, samples=[dict(task=t)], extra={})
+
+
 def work_(t):
+  if t['kind'] == 'P0':
+    return p0_work(t)
   from precondition import distributed_shampoo as ds
   t0_ = time.time()
   kind, d, r = t['kind'], t['d'], t['r']
@@ -216,6 +255,12 @@ def concrete(rp, seeds=(0, 1, 2)):
   for seed in seeds:
     rng = np.random.RandomState(seed)
     try:
+      if rp['kind'] == 'P0':
+        for dd in range(1, 40):
+          if bool(ds._should_compress(r, dd)) != (ds._precond_dim(r, dd) != dd):
+            return (f'_should_compress({r}, {dd}) = {bool(ds._should_compress(r, dd))} but _precond_dim({r}, {dd}) = {ds._precond_dim(r, dd)}: '
+                    'root routine and stored layout disagree on whether the preconditioner is packed')
+        return None
       if rp['kind'] == 'P1':
         V, l, e = rng.randn(d, ar), rng.rand(ar) + 1, rng.rand(ar) + 2
         c, tl = 3.5, 4.5
